@@ -122,10 +122,18 @@ theorem C13_npm_alias_separate_fixed_witness :
   · exact ⟨_, rfl, by decide, by decide⟩
   · exact ⟨_, rfl, by decide, by decide⟩
 
-/-- An update for a key that NO section holds is outside the property's quantifier ("updates addressed to
-requirements present in the file"): `Write` answers ok and changes nothing — stated as a witness. -/
+/-- An update for a key that NO section holds is an error since fix 400b3071 (it was passed over: `Write` answered ok and changed
+nothing — e.g. for a section spelled "Dependencies", which Read accepts and the JSON path does not find). -/
 theorem C13_npm_absent_key_witness :
-    write exDoc [⟨"absent.pkg".toList, none, "1.0.0".toList, "2.0.0".toList⟩] = .ok exDoc := by decide
+    write exDoc [⟨"absent.pkg".toList, none, "1.0.0".toList, "2.0.0".toList⟩] = .err := by decide
+
+/-- … so a successful `Write` has applied EVERY update of its list (no hypothesis on the updates): each was processed on some
+intermediate document, where a section that held `key ↦ old value` now holds `key ↦ new value`. -/
+theorem C13_npm_every_update_applied (d d' : Doc) (pre post : List Up) (u : Up)
+    (h : write d (pre ++ u :: post) = .ok d') :
+    ∃ d1 d2, write d pre = .ok d1 ∧ apply1 d1 u = .ok d2 ∧ write d2 post = .ok d' ∧ applied u d1 d2 := by
+  obtain ⟨d1, d2, h1, h2, h3, _⟩ := C13_npm_no_silent_success d d' pre post u h
+  exact ⟨d1, d2, h1, h2, h3, apply1_applied_always d1 d2 u h2⟩
 
 /-! ### the file: bytes outside the edited values -/
 
@@ -295,16 +303,32 @@ theorem C13_pom_no_silent_success_partial (pom pom' : Pom) (us : List Upd) (c : 
   rw [← this]
   exact List.mem_map_of_mem hm
 
-/-- the two classes in which the unchanged pom.xml writer still leaves the property, on the model: an
-update addressed to dependencyManagement while `<dependencies>` holds the same key, and a property shared
-with another dependency.  In both `Write` succeeds. -/
+/-- the two classes in which the unchanged pom.xml writer still leaves the property, on the model: two declarations of one key that
+the update cannot tell apart (two profiles declaring x:y at the same version: the writer takes the first, the re-read requirements
+are not the substituted ones), and a property shared with another dependency.  In both `Write` succeeds. -/
 theorem C13_pom_class_witnesses :
-    (let pom : Pom := ⟨[⟨[], ['x'], ['y'], [], [], "1.0".toList, false⟩, ⟨sManagement, ['x'], ['y'], [], [], "2.0".toList, false⟩], [], "1.0".toList, []⟩
-     let us : List Upd := [⟨"x:y".toList, [], [], sManagement, "2.0".toList, "2.5".toList⟩]
+    (let pom : Pom := ⟨[⟨"profile@p1".toList, ['x'], ['y'], [], [], "1.0".toList, false⟩, ⟨"profile@p2@management".toList, ['x'], ['y'], [], [], "1.0".toList, false⟩,
+                        ⟨"profile@p3@management".toList, ['x'], ['y'], [], [], "1.0".toList, false⟩], [], "1.0".toList, []⟩
+     let us : List Upd := [⟨"x:y".toList, [], [], sManagement, "1.0".toList, "2.5".toList⟩]
      (write pom us).isSome = true ∧ reqsAfter pom us ≠ some (substitute (requirements pom) us) ∧ feature pom us = some "C13/pom-origin-ignored") ∧
     (let pom : Pom := ⟨[⟨[], ['x'], ['y'], [], [], "${v}".toList, false⟩, ⟨[], ['x'], ['z'], [], [], "${v}".toList, false⟩], [⟨[], ['v'], "1.0".toList⟩], "1.0".toList, []⟩
      let us : List Upd := [⟨"x:y".toList, [], [], [], "1.0".toList, "1.5".toList⟩]
      (write pom us).isSome = true ∧ reqsAfter pom us ≠ some (substitute (requirements pom) us) ∧ feature pom us = some "C13/pom-shared-property") := by
+  decide
+
+/-- fix b0b162fc, on the model: the same key in `<dependencies>` (1.0) and in `<dependencyManagement>` (2.0).  An update of the
+dependencyManagement requirement 2.0 → 2.5 rewrites THAT entry, an update of the dependency 1.0 → 1.5 the other one, and both re-read as
+substituted; a new dependencyManagement requirement (no old version) for a key that only a profile's `<dependencies>` holds is added to
+dependencyManagement instead of rewriting the profile's entry.  (Before: the first declaration with the key was rewritten in all three.) -/
+theorem C13_pom_origin_fixed_witnesses :
+    (let pom : Pom := ⟨[⟨[], ['x'], ['y'], [], [], "1.0".toList, false⟩, ⟨sManagement, ['x'], ['y'], [], [], "2.0".toList, false⟩], [], "1.0".toList, []⟩
+     (let us : List Upd := [⟨"x:y".toList, [], [], sManagement, "2.0".toList, "2.5".toList⟩]
+      reqsAfter pom us = some (substitute (requirements pom) us) ∧ feature pom us = none) ∧
+     (let us : List Upd := [⟨"x:y".toList, [], [], [], "1.0".toList, "1.5".toList⟩]
+      reqsAfter pom us = some (substitute (requirements pom) us) ∧ feature pom us = none)) ∧
+    (let pom : Pom := ⟨[⟨[], ['g'], ['p'], [], [], "1.0".toList, false⟩, ⟨"profile@extra".toList, ['g'], ['t'], [], [], "1.0".toList, false⟩], [], "1.0".toList, []⟩
+     let us : List Upd := [⟨"g:t".toList, [], [], sManagement, [], "2.0".toList⟩]
+     write pom us = some { pom with deps := pom.deps ++ [⟨sManagement, ['g'], ['t'], sJar, [], "2.0".toList, false⟩] }) := by
   decide
 
 /-- former finding C13/pom-property-other-profile, repaired by 95fbdd2e, on the model: a dependency in profile p1 with version
